@@ -134,6 +134,21 @@ def _r1(chk, repo, samplers):
                     problems.append(f"line {c.lineno}: `{unparse(c)[:60]}` does not forward rng")
         if fn.name == "_sample" and not sites:
             problems.append("no draw site recognised (unknown sampling idiom)")
+        # sibling branches `if rng is not None: rng.f(args) else: np.random.f(args)` must draw with the same arguments
+        for node in walk_no_nested(fn):
+            if isinstance(node, ast.If) and unparse(node.test) in RNG_NONE_T | RNG_NONE_F and node.orelse:
+                def draws(body):
+                    return [c for s_ in body for c in ast.walk(s_) if isinstance(c, ast.Call) and ((call_name(c) or "").startswith(("rng.", "np.random.")))]
+                a, b = draws(node.body), draws(node.orelse)
+                if len(a) == len(b):
+                    for ca, cb in zip(a, b):
+                        if (call_name(ca) or '').split('.')[-1] != (call_name(cb) or '').split('.')[-1]:
+                            continue      # different generator API (e.g. standard_normal(shape) vs randn(*shape)): signatures differ
+                        aa = [unparse(x) for x in ca.args] + sorted(f"{k.arg}={unparse(k.value)}" for k in ca.keywords)
+                        bb = [unparse(x) for x in cb.args] + sorted(f"{k.arg}={unparse(k.value)}" for k in cb.keywords)
+                        if aa != bb:
+                            problems.append(f"line {ca.lineno}: the generator branch draws with {aa} but the global-stream branch with {bb}: "
+                                            f"the law of the draws depends on whether a generator is given")
         chk.add("C05-R1", inst, not problems, site(repo, fn), f"{len(sites)} draw site(s): {sorted({k for _, k in sites})}", "; ".join(problems), fn)
     # no other function in cuqi/distribution touches the global generator
     stray = []
